@@ -745,6 +745,22 @@ def r_argpos(prog, tier):
     """Every emitted pair (k, n) carries n = number of earlier emissions for k."""
     obs = []
     sites = 0
+    # the table that tells which child covers a token is keyed by the token's NUMBER: two tokens can have the same word
+    fx = prog.func('grammar', 'extract')
+    for st in walk_own(fx.node):
+        if isinstance(st, ast.Assign) and len(st.targets) == 1 and isinstance(st.targets[0], ast.Subscript) \
+                and isinstance(st.targets[0].value, ast.Name) and st.targets[0].value.id in fx.locals \
+                and st.targets[0].value.id not in fx.params and isinstance(st.value, ast.Name):
+            key = st.targets[0].slice
+            if isinstance(key, ast.Subscript) and isinstance(key.value, ast.Attribute) and key.value.attr == 'data' \
+                    and isinstance(key.slice, ast.Constant) and key.slice.value in ('word', 'lemma', 'label', 'edge', 'morph'):
+                idx_like = any(isinstance(v_, tuple) and v_[0] == 'iter' for (_, v_) in name_defs(fx, st.value.id))
+                if idx_like:
+                    obs.append(Ob('R-ARGPOS', fx.fq, 'tokens are told apart by their number: `%s`' % unparse(st)[:60], False,
+                                  'the table `%s` is keyed by `%s`: when the same %s occurs below two children of a node, every '
+                                  'occurrence is attributed to the child seen last and the linearization no longer follows the blocks'
+                                  % (st.targets[0].value.id, unparse(key), key.slice.value), construct='argpos-textkey:' + unparse(st)[:60],
+                                  line=st.lineno))
     for fname in ('linsub', 'extract'):
         f = prog.func('grammar', fname)
         cfg = f.cfg
@@ -1056,6 +1072,14 @@ def r_enc(prog, tier):
                 obs.append(Ob('R-ENC', f.fq, 'binary open `%s`' % unparse(c)[:60], True, 'bytes: no encoding involved',
                               construct='open:' + unparse(c), line=c.lineno, nontrivial=False))
                 continue
+            for k in c.keywords:
+                if k.arg == 'errors' and isinstance(k.value, ast.Constant) and k.value.value not in ('strict', None):
+                    obs.append(Ob('R-ENC', f.fq, 'what cannot be represented in the requested encoding is an error, not a silent '
+                                  'replacement: `%s`' % unparse(c)[:60], False,
+                                  'errors=%r: a character the encoding lacks is %s instead of raising - the file no longer holds '
+                                  'the tokens that were to be written' % (k.value.value, 'written as `?`' if k.value.value == 'replace'
+                                                                           else 'dropped or rewritten'),
+                                  construct='open-errors:' + unparse(c)[:60], line=c.lineno))
             if encp:
                 ok = enc in encp
                 why = 'encoding=%s' % enc if ok else 'the encoding parameter `%s` of the function does not reach ' \
@@ -1115,6 +1139,16 @@ def r_enc(prog, tier):
     if not (seen_gz and seen_tmp):
         okb = False
         whyb.append('gzip.open / temporary file not found')
+    # a file is taken for compressed by the END of its name: `'.gz' in name` also matches corpus.export.gz.dest - the
+    # name directory mode gives to what it wrote for a compressed member
+    for t_ in g.cfg.nodes:
+        if t_.kind == 'test' and isinstance(t_.ast, ast.Compare) and len(t_.ast.ops) == 1 and isinstance(t_.ast.ops[0], (ast.In, ast.NotIn)) \
+                and isinstance(t_.ast.left, ast.Constant) and isinstance(t_.ast.left.value, str) and 'gz' in t_.ast.left.value.lower() \
+                and any(isinstance(y_, ast.Name) and y_.id == g.params[0] for y_ in ast.walk(t_.ast.comparators[0])):
+            obs.append(Ob('R-ENC/GUNZIP', g.fq, 'a file counts as compressed when its name ENDS in .gz', False,
+                          '`%s` is a substring test: an uncompressed file whose name merely contains %r (corpus.export.gz.dest, the '
+                          'name directory mode gives to its own output) is opened as gzip and the conversion fails'
+                          % (unparse(t_.ast), t_.ast.left.value), construct='gunzip-suffix', line=t_.lineno))
     obs.append(Ob('R-ENC/GUNZIP', g.fq, 'gunzip copies the decompressed bytes unchanged (the reader decodes them with '
                   'the requested encoding)', okb, 'binary gzip.open, binary temporary file, no transcoding' if okb else
                   '; '.join(whyb), construct='gunzip-bytes', line=g.node.lineno))
@@ -1400,6 +1434,12 @@ def r_discont(prog, tier):
                         elif isinstance(m_.ast, ast.AugAssign) and isinstance(m_.ast.op, ast.Add) and unparse(m_.ast.value) == '1':
                             obs.append(Ob('R-DISCONT', f.fq, 'every gap adds one to the gap degree', True, unparse(m_.ast),
                                           construct='gap-count', line=m_.lineno, nontrivial=False))
+                        elif isinstance(m_.ast, (ast.Break, ast.Return)) and m_.loops:
+                            # the counting loop is left under the gap test: the first gap is the last one counted
+                            obs.append(Ob('R-DISCONT', f.fq, 'every gap of the node is counted', False,
+                                          '`%s` under the gap test leaves the loop over the tokens at the first gap: a node with '
+                                          'two or more gaps gets gap degree 1' % unparse(m_.ast)[:30],
+                                          construct='gap-count-leave', line=m_.lineno))
         for (p, x, y, c) in preds:
             # x - y <= c.   gap test: earlier - later <= -2 (later - earlier >= 2); its negation: later - earlier <= 1
             if c in (-2, 1):
